@@ -21,3 +21,17 @@ package backend
 //@ func (KeyEnvelope).Unwrap
 //@   props C17
 //@   modifies nothing
+
+// ----- text / JSON decoders of the backend types (C09: total, panic-free, write only their receiver)
+//@ func (*HEXBytes).UnmarshalText
+//@   props C09
+//@   modifies *hb
+//@ func (HEXBytes).MarshalText
+//@   props C09
+//@   modifies nothing
+//@ func (*Frequency).UnmarshalJSON
+//@   props C09
+//@   modifies *f
+//@ func (*Percentage).UnmarshalJSON
+//@   props C09
+//@   modifies *p
